@@ -16,7 +16,7 @@ thread_local! {
 }
 
 /// requests above this size get their requesting function recorded
-pub const BIG_REQUEST: usize = 128 << 20;
+pub const BIG_REQUEST: usize = 32 << 20;
 
 /// innermost calamine function behind the largest request of the last measured scope (if it was big)
 pub fn big_request_func() -> String {
@@ -27,15 +27,23 @@ pub fn big_request_func() -> String {
 /// (the process aborts and the supervisor isolates the case) instead of exhausting the machine
 pub const HARD_CAP: usize = 3 << 30;
 
+static CAP: std::sync::atomic::AtomicUsize = std::sync::atomic::AtomicUsize::new(HARD_CAP);
+
+/// lower the per-thread cap (C06 does this inside its forked child: a request that would take the
+/// live heap above the proportionality limit is refused, the child aborts and reports who asked)
+pub fn set_cap(bytes: usize) {
+    CAP.store(bytes, std::sync::atomic::Ordering::Relaxed);
+}
+
 unsafe impl GlobalAlloc for Counting {
     unsafe fn alloc(&self, layout: Layout) -> *mut u8 {
-        if !note_alloc(layout.size()) {
+        if !note_alloc(layout.size(), layout.size()) {
             return std::ptr::null_mut();
         }
         System.alloc(layout)
     }
     unsafe fn alloc_zeroed(&self, layout: Layout) -> *mut u8 {
-        if !note_alloc(layout.size()) {
+        if !note_alloc(layout.size(), layout.size()) {
             return std::ptr::null_mut();
         }
         System.alloc_zeroed(layout)
@@ -46,15 +54,10 @@ unsafe impl GlobalAlloc for Counting {
     }
     unsafe fn realloc(&self, ptr: *mut u8, layout: Layout, new_size: usize) -> *mut u8 {
         if new_size > layout.size() {
-            if !note_alloc(new_size - layout.size()) {
+            // the request as the caller sees it is new_size; only the difference is new memory
+            if !note_alloc(new_size - layout.size(), new_size) {
                 return std::ptr::null_mut();
             }
-            // the request as the caller sees it
-            let _ = MAX_REQ.try_with(|m| {
-                if ACTIVE.try_with(|a| a.get()).unwrap_or(false) && new_size > m.get() {
-                    m.set(new_size)
-                }
-            });
         } else {
             note_free(layout.size() - new_size);
         }
@@ -63,7 +66,7 @@ unsafe impl GlobalAlloc for Counting {
 }
 
 #[inline]
-fn note_alloc(size: usize) -> bool {
+fn note_alloc(size: usize, request: usize) -> bool {
     let active = ACTIVE.try_with(|a| a.get()).unwrap_or(false);
     if !active {
         return true;
@@ -74,13 +77,7 @@ fn note_alloc(size: usize) -> bool {
         v
     })
     .unwrap_or(0);
-    if live > HARD_CAP {
-        // refuse: tell the supervisor of this (forked) process what was asked for and by whom
-        let _ = ACTIVE.try_with(|a| a.set(false));
-        crate::isolate::report_refused(size);
-        return false;
-    }
-    if size > BIG_REQUEST && size > MAX_REQ.try_with(|m| m.get()).unwrap_or(0) {
+    if request > BIG_REQUEST && request > MAX_REQ.try_with(|m| m.get()).unwrap_or(0) {
         // remember who asked for the largest block (rare path: allocation here is fine once
         // accounting is switched off)
         let _ = ACTIVE.try_with(|a| a.set(false));
@@ -89,14 +86,20 @@ fn note_alloc(size: usize) -> bool {
         let _ = BIG_FUNC.try_with(|b| *b.borrow_mut() = f);
         let _ = ACTIVE.try_with(|a| a.set(true));
     }
+    if live > CAP.load(std::sync::atomic::Ordering::Relaxed) {
+        // refuse: tell the supervisor of this (forked) process what was asked for and by whom
+        let _ = ACTIVE.try_with(|a| a.set(false));
+        crate::isolate::report_refused(size, live);
+        return false;
+    }
     let _ = PEAK.try_with(|p| {
         if live > p.get() {
             p.set(live)
         }
     });
     let _ = MAX_REQ.try_with(|m| {
-        if size > m.get() {
-            m.set(size)
+        if request > m.get() {
+            m.set(request)
         }
     });
     true
